@@ -3,6 +3,7 @@ import inspect
 import itertools
 
 from . import sigs, oracle
+from . import core
 from .sigs import PO, PK, VA, KO, VK, KIND_OF
 from .sigutil import safe_eq
 
@@ -64,6 +65,7 @@ def text_chevrons(params):
 GLOBS = {'T': int, 'U': str}
 
 
+@core.guarded(None)
 def check_signature(ctx, params, ret, rnd):
     from sigtools import support, signatures
     import sigtools
